@@ -1,0 +1,20 @@
+//go:build verif
+
+// Contracts for the deductive verifier in /verif (comment-only: adds no declarations).
+package eventrecorder
+
+//@ use time logging
+
+// ---- C20: what is saved (and shown) is the current history ------------------------------------------------------
+// The event loop caches a snapshot of the history in lastEvents. Ghost flag: the in-memory history has changed
+// since the snapshot the cache may hold was taken.
+//@ ghost var ghostHistoryDirty bool
+//@ func (*EventRecorder).eventLoop
+//@   atcall (*EventRecorder).recordAuthEvent sets ghostHistoryDirty bool (sr2 *EventRecorder, username2 string, authType2 uint, vipAuthType2 uint8) :: true
+//@   atcall (*EventRecorder).recordSPLoginEvent sets ghostHistoryDirty bool (sr2 *EventRecorder, username2 string, url2 string) :: true
+//@   atcall (*EventRecorder).recordCertEvent sets ghostHistoryDirty bool (sr2 *EventRecorder, username2 string, lifetime2 time.Duration, ssh2 bool, x5092 bool) :: true
+//@   atcall (*EventRecorder).recordWebLoginEvent sets ghostHistoryDirty bool (sr2 *EventRecorder, username2 string) :: true
+//@   atcall (*EventRecorder).expireOldEvents sets ghostHistoryDirty bool (sr2 *EventRecorder, changed2 bool) :: ghostHistoryDirty || changed2
+//@   atcall (*EventRecorder).getEventsList sets ghostHistoryDirty bool (sr2 *EventRecorder, cache2 **Events, snapshot2 *Events) :: false if old(*cache2) == nil
+//@   atcall saveEvents requires (filename2 string, eventsMap2 EventsMap) :: !ghostHistoryDirty          #C20.saves-current-history @C20
+//@   loop 1 (lastEvents *Events) invariant lastEvents != nil ==> !ghostHistoryDirty                      #C20.snapshot-is-current @C20
